@@ -33,6 +33,7 @@ META = {
 RULE = ("steered dmlgen histories (8-16 statements; single/composite/no primary key, unique and plain secondary indexes, NOT NULL, CHECK) plus placed "
         "families with the natural failure (duplicate / NOT NULL / colliding UPDATE) at every row position j of m; for every statement the fault "
         "positions k = 1..N (N = row-edit calls of the unfaulted run, all of them up to 12, evenly sampled beyond) each on a fresh copy of the state. "
+        "The same enumeration runs over foreign-key histories (cascades) and trigger histories (audit table), judged by 'a failed statement changes no table'. "
         "A case = one run (statement, fault position). Non-trivial = the injected fault fired, or the statement failed naturally.")
 
 
@@ -88,6 +89,15 @@ def check(tier):
                     % (nh, rep["cases"], ex.get("fault_runs", 0), ex.get("faults_fired", 0), ex.get("natural_failures"), time.time() - t0))
             stats = d2.judge_trace(PID, binp, "c15", MODULE, trace, v, scd, signature, key, detail,
                                    per_chunk=(nh + 4) // 5 if quick else 8, procs=5 if quick else 10)
+            # histories outside the SQLTables grammar: foreign-key cascades and trigger targets
+            nx = 8 if quick else 48
+            xtrace, xrep = d2.run_gen(binp, "c15", nx, scd, procs=2 if quick else 6, extra=["-x"], tag="x")
+            xex = xrep["extra"]
+            xstats = d2.judge_trace(PID, binp, "c15", MODULE, xtrace, v, scd, signature, key, detail, per_chunk=(nx + 1) // 2 if quick else 8,
+                                    procs=2 if quick else 6, tag="x", extra=["-x"])
+            lib.log("[C15] foreign-key / trigger histories %s: %d runs, %d fault runs (%d reached a cascade or trigger target), %d disagreement(s), %.1fs"
+                    % (xex.get("x_histories"), xrep["cases"], xex.get("fault_runs", 0), xex.get("x_fault_runs_reaching_other_tables", 0),
+                       xstats["mismatches"], time.time() - t0))
             lib.log("[C15] validated %d events: %d disagreement(s), %d signature(s), %.1fs"
                     % (stats["events"], stats["mismatches"], len(stats["signatures"]), time.time() - t0))
             nat = ex.get("natural_failures", {})
@@ -96,7 +106,8 @@ def check(tier):
                       "fault positions beyond the first row edit": (sum(1 for e in d2.load_events(trace).values() if e["ev"] == "fault" and e["k"] >= 2), 40),
                       "natural duplicate failures": (nat.get("dup", 0), 10), "natural NOT NULL failures": (nat.get("notnull", 0), 3),
                       "natural failures after at least one row edit": (sum(n for k, n in pos.items() if not k.endswith("@edit0") and not k.endswith("@edit1")), 5),
-                      "index probes through an index": (ex.get("probes_via_index", 0), 200)}
+                      "index probes through an index": (ex.get("probes_via_index", 0), 200),
+                      "fault runs over cascades / trigger targets": (xex.get("x_fault_runs_reaching_other_tables", 0), 15)}
             for what, (got, floor) in floors.items():
                 if got < floor and not v.violations:      # (a reproduced disagreement is a verdict even in a thin run)
                     raise lib.Inconclusive("vacuous run: %s = %d < %d" % (what, got, floor))
@@ -117,7 +128,11 @@ def check(tier):
                 mstates += r.distinct
                 mtrans += r.generated
             rc = v.finish()
-            cov = {"evaluations": rep["cases"], "distinct_nontrivial": rep["nontrivial"], "rule": RULE,
+            cov = {"evaluations": rep["cases"] + xrep["cases"], "distinct_nontrivial": rep["nontrivial"] + xrep["nontrivial"], "rule": RULE,
+                   "foreign_key_and_trigger_histories": {"histories": xex.get("x_histories"), "runs": xrep["cases"], "fault_runs": xex.get("fault_runs"),
+                                                         "fault_runs_reaching_cascade_or_trigger_targets": xex.get("x_fault_runs_reaching_other_tables"),
+                                                         "natural_failures": xex.get("natural_failures"), "disagreements": xstats["mismatches"],
+                                                         "signatures": xstats["signatures"]},
                    "samples": rep["samples"] or [{"note": "no sample"}],
                    "exhaustive": ex.get("statements_with_sampled_positions", 0) == 0,
                    "histories": nh, "fault_runs": ex.get("fault_runs"), "faults_fired": ex.get("faults_fired"),
